@@ -179,20 +179,37 @@ func (p *propDef) familyByName(n string) (family, bool) {
 
 var nopLogger = zap.NewNop().Sugar()
 
-// execRun executes one run inside a fresh synctest bubble.
-func execRun(t *testing.T, rs RunSpec, keepTrace bool) (res *Result) {
+// execRun executes one run inside a fresh synctest bubble. The run happens on its own
+// goroutine: when the race detector has reported something the testing package ends the
+// calling goroutine (runtime.Goexit) after the bubble, and the worker must go on.
+func execRun(t *testing.T, rs RunSpec, keepTrace bool) *Result {
+	ch := make(chan *Result, 1)
+	go func() {
+		var res *Result
+		defer func() {
+			if res == nil {
+				res = &Result{RunSpec: rs, Abort: "run goroutine ended without a result"}
+			}
+			ch <- res
+		}()
+		res = &Result{RunSpec: rs}
+		execRunInner(t, rs, keepTrace, res)
+	}()
+	return <-ch
+}
+
+func execRunInner(t *testing.T, rs RunSpec, keepTrace bool, res *Result) {
 	p := props[rs.Prop]
-	res = &Result{RunSpec: rs}
 	if p == nil {
 		res.Abort = "unknown property " + rs.Prop
-		return res
+		return
 	}
 	var fam family
 	if rs.Family != "" {
 		f, ok := p.familyByName(rs.Family)
 		if !ok {
 			res.Abort = "unknown family " + rs.Family
-			return res
+			return
 		}
 		fam = f
 	} else {
@@ -279,7 +296,6 @@ func execRun(t *testing.T, rs RunSpec, keepTrace bool) (res *Result) {
 		res.SpecOut = spec.Out
 		res.RunOut = run.Out
 	})
-	return res
 }
 
 func hash64(s string) uint64 {
